@@ -3,6 +3,7 @@ package google
 import (
 	"archive/zip"
 	"bytes"
+	"encoding/base64"
 	"encoding/binary"
 	"encoding/hex"
 	"encoding/json"
@@ -285,7 +286,16 @@ func Parse(in []byte, version string) (*CRLSet, error) {
 	crlSet.Sequence = header.Sequence
 	crlSet.Version = version
 	crlSet.NumParents = header.NumParents
-	crlSet.BlockedSPKIs = header.BlockedSPKIs
+	// The header lists blocked SPKI hashes in base64; IssuerLists is keyed by
+	// the hex form and Check compares its (hex) argument with both, so store
+	// the blocked hashes as hex too.
+	for _, b64 := range header.BlockedSPKIs {
+		rawHash, err := base64.StdEncoding.DecodeString(b64)
+		if err != nil {
+			return nil, errors.New("Failed to parse BlockedSPKIs in CRLSet header: " + err.Error())
+		}
+		crlSet.BlockedSPKIs = append(crlSet.BlockedSPKIs, hex.EncodeToString(rawHash))
+	}
 
 	for rest.Len() > 0 {
 		rawEntry := RawEntry{}
